@@ -51,6 +51,7 @@ func NewCtx() *Ctx {
 	c.decl("fun:set32", "(declare-fun set32 (Int) Int)")   // x | (1<<32)
 	c.axioms = append(c.axioms,
 		condAxiom{[]string{"(strlen "}, "(forall ((s Str)) (! (>= (strlen s) 0) :pattern ((strlen s))))"},
+		condAxiom{[]string{"(has_prefix "}, "(forall ((s Str) (p Str)) (! (=> (has_prefix s p) (>= (strlen s) (strlen p))) :pattern ((has_prefix s p))))"},
 		condAxiom{[]string{"(str_concat "}, "(forall ((a Str) (b Str)) (! (= (strlen (str_concat a b)) (+ (strlen a) (strlen b))) :pattern ((str_concat a b))))"},
 		condAxiom{[]string{"(set32 "}, "(forall ((x Int)) (! (=> (and (<= 0 x) (< x 4294967296)) (and (not (bit32 x)) (= (low32 x) x) (bit32 (set32 x)) (= (low32 (set32 x)) x) (>= (set32 x) 4294967296))) :pattern ((set32 x))))"},
 		condAxiom{[]string{"(bit32 "}, "(forall ((x Int)) (! (=> (and (<= 0 x) (< x 4294967296)) (and (not (bit32 x)) (= (low32 x) x))) :pattern ((bit32 x))))"},
@@ -118,6 +119,17 @@ func (c *Ctx) strFacts() []string {
 	for _, s := range c.strOrder {
 		n := c.strLits[s]
 		out = append(out, fmt.Sprintf("(= (strlen %s) %d)", n, len(s)))
+		if c.declared["fun:rune_count"] {
+			ascii := true
+			for i := 0; i < len(s); i++ {
+				if s[i] >= 0x80 {
+					ascii = false
+				}
+			}
+			if ascii {
+				out = append(out, fmt.Sprintf("(= (rune_count %s) %d)", n, len(s)))
+			}
+		}
 	}
 	return out
 }
